@@ -95,6 +95,14 @@ class Sim:
         except SimBudget:
             raise
         except (Exception, SimInterrupt) as e:
+            # drop the traceback: a retained traceback keeps wn's cursor objects (and any
+            # statement still active on them) alive, which ordinary callers do not do
+            e.tb_text = traceback.format_exception(e)[-3:]
+            e.__traceback__ = None
+            if e.__context__ is not None:
+                e.__context__.__traceback__ = None
+            if e.__cause__ is not None:
+                e.__cause__.__traceback__ = None
             return None, e
 
     def violation(self, oracle, message, detail=None, tags=()):
@@ -175,7 +183,7 @@ class Sim:
             raise self.violation('add-raises', 'add of a valid resource raised %s'
                                  % type(exc).__name__,
                                  {'exc': repr(exc), 'op': op,
-                                  'tb': traceback.format_exception(exc)[-3:]})
+                                  'tb': getattr(exc, 'tb_text', None)})
         self.m.add_resource(res['lexicons'])
         if todo:
             self.probe('add-installs')
